@@ -50,6 +50,9 @@ fn main() {
     for f in [1.0f32, f32::NAN, -0.0, 0.1, f32::INFINITY, -f32::NAN, 1e20] {
         println!("F8 {}", f.to_toml_value());
     }
+    // F12 (C04): 300 consecutive quotes overflowed the u8 run counters of ValueMetrics (panic with overflow checks on)
+    let v: toml::Value = format!("a = '{}'", "\"".repeat(300)).parse().unwrap();
+    println!("F12 printed {} bytes", v.to_string().len());
     // F10
     println!("F10 {:?} text {:?}", toml::Value::try_from(N { v: vec![Some(1), None] }), toml::to_string(&N { v: vec![Some(1), None] }));
 }
